@@ -147,15 +147,15 @@ func SnapFromImpl(n *Node, tracked []string) (s *Snap, err error) {
 		sa := &SAuction{ID: a.GetId(), Type: int(a.GetType()), Auctioneer: a.GetAuctioneer().String(),
 			SellEscrow: a.GetSellingReserveAddress().String(), PayEscrow: a.GetPayingReserveAddress().String(), VestEscrow: a.GetVestingReserveAddress().String(),
 			StartPrice: a.GetStartPrice().String(), SellDenom: a.GetSellingCoin().Denom, SellAmt: a.GetSellingCoin().Amount.String(),
-			PayDenom: a.GetPayingCoinDenom(), StartNs: a.GetStartTime().UnixNano(), Status: int(a.GetStatus()), Allowed: map[string]string{}}
+			PayDenom: a.GetPayingCoinDenom(), StartNs: nsOf(a.GetStartTime()), Status: int(a.GetStatus()), Allowed: map[string]string{}}
 		if key != a.GetId() {
 			s.Orphans = append(s.Orphans, fmt.Sprintf("auction key %d holds id %d", key, a.GetId()))
 		}
 		for _, t := range a.GetEndTimes() {
-			sa.EndTimes = append(sa.EndTimes, t.UnixNano())
+			sa.EndTimes = append(sa.EndTimes, nsOf(t))
 		}
 		for _, v := range a.GetVestingSchedules() {
-			sa.Vesting = append(sa.Vesting, fmt.Sprintf("%d:%s", v.ReleaseTime.UnixNano(), v.Weight.String()))
+			sa.Vesting = append(sa.Vesting, fmt.Sprintf("%d:%s", nsOf(v.ReleaseTime), v.Weight.String()))
 		}
 		switch t := a.(type) {
 		case *types.FixedPriceAuction:
@@ -226,10 +226,10 @@ func SnapFromImpl(n *Node, tracked []string) (s *Snap, err error) {
 	err = k.VestingQueue.Walk(ctx, nil, func(key collections.Pair[uint64, time.Time], q types.VestingQueue) (bool, error) {
 		a, ok := byID[key.K1()]
 		if !ok || q.AuctionId != key.K1() || !q.ReleaseTime.Equal(key.K2()) {
-			s.Orphans = append(s.Orphans, fmt.Sprintf("vesting queue key (%d,%d) holds (%d,%d)", key.K1(), key.K2().UnixNano(), q.AuctionId, q.ReleaseTime.UnixNano()))
+			s.Orphans = append(s.Orphans, fmt.Sprintf("vesting queue key (%d,%d) holds (%d,%d)", key.K1(), nsOf(key.K2()), q.AuctionId, nsOf(q.ReleaseTime)))
 			return false, nil
 		}
-		a.Queue = append(a.Queue, SQueue{AuctionID: q.AuctionId, ReleaseNs: q.ReleaseTime.UnixNano(), Amt: q.PayingCoin.Amount.String(), Denom: q.PayingCoin.Denom, Auctioneer: canonAddr(q.Auctioneer), Released: q.Released})
+		a.Queue = append(a.Queue, SQueue{AuctionID: q.AuctionId, ReleaseNs: nsOf(q.ReleaseTime), Amt: q.PayingCoin.Amount.String(), Denom: q.PayingCoin.Denom, Auctioneer: canonAddr(q.Auctioneer), Released: q.Released})
 		return false, nil
 	})
 	if err != nil {
